@@ -26,6 +26,7 @@ def dispatch (op : String) (args impl : List String) : Verdict :=
   | "r565e_all" => opR565eAll args impl
   | "varu_grid" => opVaruGrid args impl
   | "crcupd" => opCrcUpd args impl
+  | "fcorr" => opFcorr args impl
   | "facc" => opFacc args impl
   | "walk" => opWalk args impl
   | "find" => opFind args impl
